@@ -401,8 +401,9 @@ impl Execute for ast::Pipeline {
             wait_for_pipeline_processes_and_update_status(self, spawn_results, shell, &params)
                 .await?;
 
-        // Invert the exit code if requested.
-        if self.bang {
+        // Invert the exit code if requested. A `return` or `exit` inside the pipeline leaves
+        // with its own status before the negation applies.
+        if self.bang && !result.is_return_or_exit() {
             result.exit_code = ExecutionExitCode::from(if result.is_success() { 1 } else { 0 });
         }
 
